@@ -66,7 +66,7 @@ def _cases(tier, seed):
                 c["keep"] = ["clock", "rounded", "nonclock"][(j // 24) % 3]
                 c["keep_seed"] = int(rng.integers(2**31))
             if param == "shift" and j % 5 == 1:
-                c["smooth_rt"] = float([0.4, 1.0, 2.5, 10.0, 0.05][(j // 5) % 5])
+                c["smooth_rt"] = float([0.4, 1.0, 2.5, 10.0, 0.05, 50.0, -2.0][(j // 5) % 7])
             out.append(c)
             j += 1
     return out
@@ -283,6 +283,8 @@ def _run_case(case):
         k = float(case["smooth_rt"])
         tr = DifferenceNodeHeightTransform(tree, k)
         xs = dic["tree.shifts"].tensor.detach().clone()
+        if k >= 10.0:
+            xs = xs * 40.0  # heights in the hundreds and thousands (days, generations): k x height far beyond the range of exp
         hs = tr(xs)
         back = tt.as_np(tr.inv(hs), "C06:not-a-tensor:" + tag, "transform.inv")
         C["smooth_max_round_trips"] = 1
@@ -338,10 +340,16 @@ def _run_case(case):
         kind1 = type(tree.transform).__name__
         if kind1 != kind0:
             V.append(tt.viol("C06:move-changes-parameterisation:%s:%s" % (tag, mv), "after %s the transform is %s, it was %s" % (mv, kind1, kind0), case=case))
-        # notify through the public interface so that caches are recomputed, then re-validate
+        # new values through the public interface right after the move (nothing is read in between), then re-validate against the
+        # recursion for the new values
+        import copy
+
+        case_m = copy.deepcopy(case)
         name = "tree.shifts" if case["param"] == "shift" else "tree.root_height"
-        dic[name].tensor = dic[name].tensor.clone()
-        read("after " + mv, tol=1e-5 if mv == "float32" else 0.0)
+        key = "shifts" if case["param"] == "shift" else "root_height"
+        case_m[key] = (np.asarray(case[key], dtype=float) * 1.07).tolist()
+        dic[name].tensor = dic[name].tensor.detach() * 1.07
+        read("after " + mv + " and an update", tol=1e-5 if mv == "float32" else 1e-12, refcase=case_m)
     # the same model built through the Python API on one Parameter holding ratios and root height, updated in place and announced
     # with fire_parameter_changed() - the optimiser protocol (from JSON the model holds a concatenation of two parameters instead)
     if case["param"] == "ratio" and not B and case["move"] == "none" and not V and n >= 3:
